@@ -92,6 +92,31 @@ def check_ids(inp):
     if got is None or abs(got - want) > 1e-6:
       return (f'stackoverflow model {nm} on perfect predictions of tokenizer output with OOV words: {got}, the definition '
               f'(special labels pad/bos/eos/oov = 0/1/2/{oov_id} never credited) gives {want}')
+  # the packaged models' TRAINING loss ignores the dataset's padding label, with and without the expected_length option:
+  # padding a sentence further (a larger max_length) does not change its loss
+  from fedjax.core import metrics as fm
+  for el in (None, 13.3):
+    lm = so_model.create_lstm_model(vocab_size=V, embed_size=4, lstm_hidden_size=5, lstm_num_layers=1, expected_length=el)
+    losses = []
+    for ml in (6, 11):
+      bt = tok.as_preprocess_batch(ml)({'tokens': np.array([b'the cat zzz sat', b'qqq on a', b'xx yy'], dtype=object)})
+      lg = jnp.asarray(np.random.RandomState(0).randn(3, 1, V + 4).astype(np.float32)).repeat(bt['y'].shape[1], axis=1)
+      got = np.asarray(lm.train_loss(bt, lg))
+      yb = np.asarray(bt['y'])
+      ref = np.asarray(fm.unreduced_cross_entropy_loss(jnp.asarray(yb), lg))
+      want = (ref * (yb != 0)).sum(-1) * (1.0 if el is None else 1.0 / el)
+      if not np.allclose(got, want, rtol=1e-5, atol=1e-6):
+        return (f'stackoverflow train_loss(expected_length={el}) on tokenizer output padded to {ml}: {got.tolist()}, the sum over '
+                f'non-PAD tokens gives {want.tolist()} (the loss counts padding label {0})')
+      losses.append(got)
+    if not np.allclose(losses[0], losses[1], rtol=1e-5, atol=1e-6):
+      return f'stackoverflow train_loss(expected_length={el}) depends on how far the sentences are padded: {losses[0].tolist()} vs {losses[1].tolist()}'
+  sh = shk_model.create_lstm_model()
+  yb = np.array([[5, 7, 2, 0, 0, 0], [9, 2, 0, 0, 0, 0]], np.int32)
+  lg = jnp.asarray(np.random.RandomState(1).randn(2, 6, shakespeare.VOCAB_SIZE).astype(np.float32))
+  ref = np.asarray(fm.unreduced_cross_entropy_loss(jnp.asarray(yb), lg))
+  if not np.allclose(np.asarray(sh.train_loss({'y': jnp.asarray(yb)}, lg)), (ref * (yb != shakespeare.PAD)).mean(-1), rtol=1e-5, atol=1e-6):
+    return 'shakespeare train_loss is not the mean over positions of the non-PAD token losses'
   # the packaged TASK wires dataset and model together: the model the task returns scores exactly the labels the task's
   # dataset produces and counts its OOV label (load_split stubbed with an in-memory split: no network)
   from fedjax.training import tasks
